@@ -115,6 +115,12 @@ type pathState struct {
 	choices  map[string]uint64
 	sliceAt  map[*value][]value
 	mapWrites []*gmap
+	onceStack []*value
+	oncePass  map[*value]int
+	onceWrites map[*value]*value
+	reads     []readRec
+	accSeq    int
+	inOnce    int // > 0 while inside sync.Once.Do (stores there are excluded from the write log)
 	syncEvents []string
 	relDiv, relDivS map[relDivKey]relDivQR // zz_reldiv.go
 }
@@ -670,4 +676,11 @@ func (ps *pathState) watchTruncation(fr *frame, dst types.Type, x value) {
 	} else {
 		ps.trunc = c.Or(ps.trunc, cond)
 	}
+}
+
+// readRec is a logged non-atomic load (only while the write log is on).
+type readRec struct {
+	addr *value
+	seq  int
+	once *value // innermost active sync.Once, or nil
 }
